@@ -81,12 +81,37 @@ Definition prop_c06 (c : case) : bool :=
   | _ => true
   end.
 
-(* known finding 15: an inline map next to named fields receives every setting *)
+(* known finding 15: an inline map receives every setting of its namespace, which it shares with
+   the named fields beside it - also through inline structs nested in each other *)
+Fixpoint ns_count (t : ty) : nat :=           (* settings-bearing fields in the namespace of a struct *)
+  match t with
+  | TStruct fs =>
+    (fix go (l : list (string * string * string * ty)) : nat :=
+       match l with
+       | [] => O
+       | (_, ctag, _, ft) :: r =>
+         Nat.add (if tag_squash ctag then match ft with TStruct _ => ns_count ft | _ => 1%nat end else 1%nat) (go r)
+       end) fs
+  | _ => 1%nat
+  end.
+Fixpoint ns_has_inline_map (t : ty) : bool :=
+  match t with
+  | TStruct fs =>
+    (fix go (l : list (string * string * string * ty)) : bool :=
+       match l with
+       | [] => false
+       | (_, ctag, _, ft) :: r =>
+         (tag_squash ctag && match ft with
+                             | TStruct _ => ns_has_inline_map ft
+                             | _ => match base_ty ft with TMap _ => true | _ => false end
+                             end) || go r
+       end) fs
+  | _ => false
+  end.
 Fixpoint inline_map_beside_fields (t : ty) : bool :=
   match t with
   | TStruct fs =>
-    (existsb (fun f => let '(_, ctag, _, ft) := f in tag_squash ctag && match base_ty ft with TMap _ => true | _ => false end) fs
-     && (1 <? List.length fs)%nat)
+    (ns_has_inline_map t && (1 <? ns_count t)%nat)
     || (fix go (l : list (string * string * string * ty)) : bool :=
           match l with [] => false | (_, _, _, ft) :: r => inline_map_beside_fields ft || go r end) fs
   | TPtr e | TSlice e | TArray _ e | TMap e => inline_map_beside_fields e
